@@ -168,60 +168,55 @@ def classify(prop, results, known):
 
 
 def replay(ov, prop, item, extra, timeout=900):
-    """Concrete playback of one failing harness; returns (reproduced: bool|None, path)."""
+    """Concrete playback of one failing harness; returns (reproduced: bool|None, path, note)."""
     h = item["harness"]
     short = h.rsplit("::", 1)[-1]
+    uniq = "__".join(h.split("::")[-3:]) if h.count("::") >= 2 else short
     outdir = os.path.join(VERIF, "replays", prop)
     os.makedirs(outdir, exist_ok=True)
-    path = os.path.join(outdir, short + ".rs")
+    path = os.path.join(outdir, uniq + ".rs")
     cmd = ["cargo", "kani", "--harness", h, "--exact", "-Z", "concrete-playback", "--concrete-playback=inplace"] + extra
     try:
         p = subprocess.run(cmd, cwd=ov, env=ENV, capture_output=True, text=True, timeout=timeout)
     except subprocess.TimeoutExpired:
         return None, path, "playback generation timed out"
-    # find generated tests in the overlay sources
-    tests = []
-    gen_src = None
+    tests, gen_src = [], None
     for d, _, fs in os.walk(os.path.join(ov, "src")):
         for f in fs:
             if f.endswith(".rs"):
                 s = open(os.path.join(d, f)).read()
-                for m in re.finditer(r"fn (kani_concrete_playback_" + re.escape(short) + r"_\d+)\(\)", s):
-                    tests.append(m.group(1))
+                found = re.findall(r"fn (kani_concrete_playback_" + re.escape(short) + r"_\d+)\(\)", s)
+                if found:
+                    tests += found
                     gen_src = s
     if not tests:
-        open(path, "w").write("// no concrete playback test was generated\n// " + item["label"] + "\n" + p.stdout[-3000:])
+        open(path, "w").write("// no concrete playback test was generated\n// " + item["label"] + "\n")
         return None, path, "no playback test generated"
-    # keep the generated tests as the replay artefact
     blocks = re.findall(r"(?:///[^\n]*\n)*#\[test\]\s*\nfn kani_concrete_playback_" + re.escape(short) + r"_\d+\(\) \{.*?\n\}\n",
                         gen_src, re.S)
     with open(path, "w") as fh:
         fh.write(f"// Replay for {item['property']} / {h}\n// failing obligation: {item['label']}\n"
-                 f"// generated by `cargo kani -Z concrete-playback` on the overlay of /repo; run with\n"
-                 f"//   ./check {prop} --replay {path}\n\n")
+                 f"// generated by `cargo kani -Z concrete-playback` on the overlay of /repo (tools/overlay.py);\n"
+                 f"// to re-run: build the overlay, paste these tests next to the harness and run\n"
+                 f"//   cargo kani playback -Z concrete-playback [--release] -- kani_concrete_playback_{short}\n\n")
         fh.write("\n".join(blocks))
+    lab = item["label"]
+    needle = lab if lab.startswith("VP[") else lab.replace("unexpected failure in valid region: ", "").rsplit(" [", 1)[0]
     reproduced = False
     notes = []
     for profile in ([], ["--release"]):
-        for t in tests:
-            cmd = ["cargo", "kani", "playback", "-Z", "concrete-playback"] + profile + ["--", t]
-            try:
-                q = subprocess.run(cmd, cwd=ov, env=ENV, capture_output=True, text=True, timeout=timeout)
-            except subprocess.TimeoutExpired:
-                notes.append(f"{t} {profile}: timeout")
-                continue
-            out = q.stdout + q.stderr
-            failed = re.search(r"test result: FAILED|panicked at", out) is not None
-            ok = re.search(r"test result: ok\. [1-9]", out) is not None
-            notes.append(f"{t} {'release' if profile else 'dev'}: {'FAILED(reproduced)' if failed else ('passed' if ok else 'not run')}")
-            if failed:
-                # reproduced only if the *same* obligation panics natively
-                lab = item["label"]
-                if lab.startswith("VP["):
-                    if lab in out:
-                        reproduced = True
-                else:
-                    reproduced = True
+        cmd = ["cargo", "kani", "playback", "-Z", "concrete-playback"] + profile + ["--", "kani_concrete_playback_" + short + "_"]
+        try:
+            q = subprocess.run(cmd, cwd=ov, env=ENV, capture_output=True, text=True, timeout=timeout)
+        except subprocess.TimeoutExpired:
+            notes.append(f"{'release' if profile else 'dev'}: timeout")
+            continue
+        out = q.stdout + q.stderr
+        m = re.search(r"test result: \w+\. (\d+) passed; (\d+) failed", out)
+        hit = needle in out and re.search(r"panicked at", out) is not None
+        notes.append(f"{'release' if profile else 'dev'}: {m.group(0) if m else 'no result'}; obligation {'reproduced' if hit else 'not reproduced'}")
+        if hit:
+            reproduced = True
     with open(path, "a") as fh:
         fh.write("\n// native replay: " + "; ".join(notes) + "\n")
     return reproduced, path, "; ".join(notes)
@@ -273,27 +268,25 @@ def run_check(prop, tier, cfg):
         min_h = cfg.get("min_harnesses", 1)
         if n_expected < min_h:
             inconcl.append(f"only {n_expected} harnesses matched, expected >= {min_h}")
-        # ---- replay every violating harness once
+        # ---- replay one representative harness per distinct failing obligation (label + location)
         confirmed, unconfirmed = [], []
-        seen = set()
+        groups = {}
         for v in violations:
-            if v["harness"] in seen:
-                continue
-            seen.add(v["harness"])
+            groups.setdefault((v["label"], v["where"]), []).append(v)
+        for key, members in groups.items():
+            rep_v = members[0]
             if cfg.get("no_replay"):
                 rep, path, note = True, "", "replay disabled for this engine"
             else:
-                rep, path, note = replay(ov, prop, v, [e for e in extra if e not in ()])
-            v["replay"] = path
-            v["replay_note"] = note
-            if rep:
-                confirmed.append(v)
-            else:
-                unconfirmed.append(v)
+                rep, path, note = replay(ov, prop, rep_v, extra)
+            for v in members:
+                v["replay"] = path
+                v["replay_note"] = note + ("" if v is rep_v else f" (representative: {rep_v['harness']})")
+                (confirmed if rep else unconfirmed).append(v)
         for f in findings:
             log(f"KNOWN-FINDING: property={f['property']} {f.get('what') or f['label']} [{f['harness'].rsplit('::',1)[-1]}]")
         for v in confirmed:
-            log(f"VIOLATION property={v['property']} replay={v['replay']}")
+            log(f"VIOLATION property={prop} replay={v['replay']}")
             log(f"  harness={v['harness']} obligation={v['label']} at {v['where']}")
         for v in unconfirmed:
             log(f"UNCONFIRMED counterexample property={v['property']} harness={v['harness']} obligation={v['label']} ({v['replay_note']})")
